@@ -22,6 +22,7 @@ from mc.vclock import CLOCK  # noqa: E402
 ID = "C18"
 LEVEL = "model_checking"
 RULE = (
+    "L0: the trace signals of the real client from EsClientFactory.create_async fired in every sequence aiohttp can emit for one request; "
     "L1: every context tree of the grammar (root with 1..3 children; child = request leaf (delay, duration) or nested context with "
     "1..2 children, sequential or concurrent, optional idle time after its last request; third level single-request contexts; contexts "
     "that issue no request at all before / between / after real requests) with "
@@ -212,6 +213,57 @@ def l1_run(tree, ch, res):
             f"tree {tree!r} schedule {list(ch.choices)}: {v[1]}",
             {"layer": 1, "tree": tree, "choices": list(ch.choices)},
         )
+
+
+# ------------------------------------------------------------------------------------------------ L0 wiring of the HTTP client's trace signals
+
+
+def signal_words():
+    """what aiohttp can emit for one HTTP request: request start, 0..2 request chunks sent, then either an exception, or the request end
+    (= response head received) followed by 0..3 response body chunks"""
+    for sent in range(3):
+        head = ["request_start"] + ["request_chunk_sent"] * sent
+        yield head + ["request_exception"]
+        for chunks in range(4):
+            yield head + ["request_end"] + ["response_chunk_received"] * chunks
+
+
+def l0_run(words, res):
+    """the real client from EsClientFactory.create_async: its aiohttp TraceConfig is fired signal by signal (one virtual second apart) inside
+    a request context; the context must record the time of request_start and the time of the LAST response-side signal"""
+    env()
+    es = fakees.make_async_client(client_id=7)
+    tcs = [tc for nc in es.transport.node_pool.all() for tc in getattr(nc, "trace_configs", [])]
+    v = None
+    for word in words:
+        if not tcs:
+            v = ("wire-no-trace-config", "the client created by the factory has no aiohttp trace configuration")
+        else:
+            tc = tcs[0]
+
+            async def fire():
+                with es.new_request_context() as ctx:
+                    times = {}
+                    for i, sig in enumerate(word):
+                        await asyncio.sleep(1)
+                        times[i] = CLOCK.now
+                        for cb in getattr(tc, "on_" + sig):
+                            await cb(None, None, None)
+                    return ctx.request_start, ctx.request_end, times
+
+            CLOCK.start()
+            try:
+                (start, end, times), loop = vloop.run(fire(), chooser=explore.Chooser(()), horizon=1000.0)
+            finally:
+                CLOCK.stop()
+            want_start = times[0]
+            want_end = max(t for i, t in times.items() if word[i] in ("request_end", "response_chunk_received", "request_exception"))
+            if (start, end) != (want_start, want_end):
+                v = ("wire-signals", f"signals {word} one second apart: recorded ({start}, {end}), the request started at {want_start} and its last response-side signal came at {want_end}")
+        res.case(case_repr={"L0_signals": word} if res.sample_now(5) else None, nontrivial_key=("L0", tuple(word)), outcome_key=("L0", len(word), v[0] if v else "ok"))
+        if v:
+            res.violation(f"ctx:L0:{v[0]}", v[1], {"layer": 0, "word": word})
+            break
 
 
 # ------------------------------------------------------------------------------------------------ L2 / L3
@@ -427,6 +479,9 @@ def run(tier, seed):
     l3 = [(a, b, off) for a in pairs for b in pairs for off in (0, 0.25, 1.0)]
     jobs = [(1, chk, bound) for chk in par.chunks(t, par.NPROC * 6)] + [(2, chk, bound) for chk in par.chunks(l2, par.NPROC)] + [(3, chk, bound) for chk in par.chunks(l3, par.NPROC)]
     res = par.pmap(_job, jobs, seed=seed)
+    words = list(signal_words())
+    l0_run(words, res)
+    res.extra["L0_signal_sequences"] = len(words)
     res.extra["L1_trees"] = len(t)
     res.extra["L2_composites"] = len(l2)
     res.extra["L3_pairs"] = len(l3)
@@ -440,14 +495,16 @@ def replay(data):
 
     logging.disable(logging.CRITICAL)
     res = Result()
-    ch = explore.Chooser(tuple(data["choices"]))
+    ch = explore.Chooser(tuple(data.get("choices", ())))
 
     def tup(n):
         if n[0] == "E":
             return ("E", n[1])
         return (n[0], n[1], n[2]) if n[0] in ("L", "X") else ("C", n[1], [tup(c) for c in n[2]], n[3])
 
-    if data["layer"] == 1:
+    if data["layer"] == 0:
+        l0_run([data["word"]], res)
+    elif data["layer"] == 1:
         l1_run(tup(data["tree"]), ch, res)
     elif data["layer"] == 2:
         si, kinds, mc = data["cfg"]
